@@ -127,6 +127,8 @@ def generate(rs: int, tier: str, index: int) -> dict:
         desc = _retype(c.sub("retype"), desc)
         if c.sub("alias").chance(0.08):
             desc = dict(desc, alias=True)
+        if c.sub("view").chance(0.12):
+            desc = dict(desc, view=c.sub("view").choice(["T", "rev"]))
         step: Dict[str, Any] = {"id": i, "op": desc}
         if cls == "natural":
             step["op"] = _spoil(c.sub("spoil"), desc)
@@ -241,7 +243,8 @@ class Runner:
         except core.Undecided as exc:
             self.bump(f"undecided:{exc.reason}")
             return None
-        before = snap((args, kwargs))
+        parents = list(ops.LAST_PARENTS)
+        before = snap((args, kwargs, parents))
         if "ndpoly-unreadable" in repr(before)[:100000]:
             self.bump("undecided:argument-unreadable-before-call")
             return None
@@ -283,7 +286,7 @@ class Runner:
             self.bump("outcome:natural_raise")
             if isinstance(exc, (Warning, FloatingPointError)) and self.plan.get("environment"):
                 self.bump("fault:environment_escalation.fired")
-        after = snap((args, kwargs))
+        after = snap((args, kwargs, parents))
         self.bump("decided")
         self.bump(f"op:{desc['op']}")
         label = {"none": "free", "count": "free", "line": "line", "alloc": "alloc"}[mode]
